@@ -4,7 +4,7 @@ mod verif_kani_resp_codec {
     use super::*;
     // rustc resolves this `use` to the crate the code under test links against (a second `memchr`
     // lives in the std sysroot and is what a plain `memchr::…` stub path would name)
-    use memchr::memchr::memchr as dep_memchr;
+    use memchr::memchr as dep_memchr;
 
     const ALPHABET: [u8; 18] = [
         b'+', b'-', b':', b'$', b'*', b'\r', b'\n', b'0', b'1', b'2', b'3', b'4', b'5', b'6', b'7', b'8', b'9', b'a',
